@@ -937,7 +937,8 @@ class Interp:
         return out
 
     def ex_Dict(self, node, env):
-        if not node.keys and self.symdict_functions and env.qual in self.symdict_functions:
+        if not node.keys and self.symdict_functions and (env.qual in self.symdict_functions or
+                                                         (env.qual and env.qual.split(".")[0] + ".*" in self.symdict_functions)):
             from .containers import SymDict
             return SymDict()
         d = {}
